@@ -3,7 +3,6 @@ package main
 import (
 	"fmt"
 	"go/token"
-	"go/types"
 
 	"golang.org/x/tools/go/ssa"
 )
@@ -29,24 +28,12 @@ func runC12(c *Ctx) {
 	refill := c.method("postscript", "scanner", "refill")
 
 	// ---- fixed-size reads use io.ReadFull
+	// (decided on one evaluated iteration of the decoder's main loop per state — rules_c14b.go — so
+	// that helpers, step methods reached through a dispatch table and inline code are the same thing)
 	pfbRead := c.method("pfb", "pfbReader", "Read")
-	nFull, nArr := 0, 0
-	c.eachInstrDeep(pfbRead, 2, func(ins ssa.Instruction) {
-		if call, ok := ins.(*ssa.Call); ok {
-			if sc := call.Common().StaticCallee(); sc != nil && calleeName(sc) == "io.ReadFull" {
-				nFull++
-				if sl, ok := call.Common().Args[1].(*ssa.Slice); ok {
-					if p, ok := sl.X.Type().Underlying().(*types.Pointer); ok {
-						if arr, ok := p.Elem().Underlying().(*types.Array); ok && arr.Len() == 6 {
-							nArr++
-						}
-					}
-				}
-			}
-		}
-	})
-	c.check(nFull >= 2 && nArr == 1, "DLV-READFULL", c.fname(pfbRead), "segment header (6 bytes) and binary data read with io.ReadFull", pfbRead.Pos(), fmt.Sprintf("%d ReadFull calls, header buffer [6]byte", nFull),
-		"the PFB decoder no longer reads the 6-byte segment header and the binary segment bytes with io.ReadFull: a short read would be taken for the whole item")
+	okFull, whyFull, nFull := c.pfbFixedReadsX8(pfbRead)
+	c.check(okFull, "DLV-READFULL", c.fname(pfbRead), "segment header (6 bytes) and binary data read with io.ReadFull", pfbRead.Pos(), fmt.Sprintf("%d ReadFull calls, header buffer of 6 bytes", nFull),
+		"the PFB decoder no longer reads the 6-byte segment header and the binary segment bytes with io.ReadFull: a short read would be taken for the whole item ("+whyFull+")")
 	peek := c.fn("type1", "peek")
 	nFull = 0
 	c.eachInstrDeep(peek, 2, func(ins ssa.Instruction) {
@@ -279,14 +266,9 @@ func runC12(c *Ctx) {
 	c.floor("DLV-STICKYREAD", 2)
 
 	// ---- Next/Peek share one look-ahead buffer: bytes peeked are handed out before new input
-	next := c.method("postscript", "scanner", "Next")
-	usesPeek := false
-	eachInstr(next, func(ins ssa.Instruction) {
-		if ld, ok := ins.(*ssa.UnOp); ok && isFieldLoad(ld, scannerT, c.fld("scanner.peek")) {
-			usesPeek = true
-		}
-	})
-	c.check(usesPeek, "DLV-LOOKAHEAD", c.fname(next), "Next serves the look-ahead buffer first", next.Pos(), "reads scanner.peek", "Next no longer consults the look-ahead buffer: bytes already peeked would be skipped")
+	// (decided on the evaluated form of Next, helpers in place: ext_x8.go)
+	_ = scannerT
+	c.lookaheadRuleX8("DLV-LOOKAHEAD")
 }
 
 // readCountRule: at every direct Read on an io.Reader the byte count is accounted before the
@@ -367,19 +349,30 @@ func sameFieldBase(a, b ssa.Value) bool {
 
 // unchangedBetween: a is executed before b on every path to b, and no path from a to b contains a
 // call (other than of a builtin) or a store through a pointer: memory read at a and at b is the same.
-func unchangedBetween(a, b ssa.Instruction) bool {
+func unchangedBetween(a, b ssa.Instruction) bool { return unchangedBetweenOpt(a, b, false) }
+
+// unchangedBetweenOpt: as unchangedBetween; with strict, the builtins that write through a slice
+// (copy, append, clear) and stores into local variables count as writes too — needed when the
+// memory in question is a local array that has been sliced.
+func unchangedBetweenOpt(a, b ssa.Instruction, strict bool) bool {
 	if !dominatesInstr(a, b) {
 		return false
 	}
 	writes := func(ins ssa.Instruction) bool {
 		switch x := ins.(type) {
 		case ssa.CallInstruction:
-			if _, isB := x.Common().Value.(*ssa.Builtin); isB {
+			if bi, isB := x.Common().Value.(*ssa.Builtin); isB {
+				if strict {
+					switch bi.Name() {
+					case "copy", "append", "clear":
+						return true
+					}
+				}
 				return false
 			}
 			return true
 		case *ssa.Store:
-			if _, local := x.Addr.(*ssa.Alloc); local {
+			if _, local := x.Addr.(*ssa.Alloc); local && !strict {
 				return false
 			}
 			return true
